@@ -24,6 +24,7 @@ type GenOpts struct {
 	StreamErrs     bool // destination stream errors
 	DLQFaults      bool // DLQ nack / stream error
 	StoreFaults    bool
+	DLQDeath       int  // percentage of cases in which the DLQ connector's stream dies at the first dead-lettered record (later records exist)
 	AckSendFaults  int  // percentage of cases with transient / permanent failures of the host's ack Send
 	AckSendNoBreak bool // only transient failures (bursts below the retry bound), never a broken stream
 	GateCommits    bool
@@ -261,7 +262,27 @@ func GenCase(t *rapid.T, o GenOpts) *Case {
 				// not the last record of the run: a later one is accepted by the DLQ
 				q := start + Uniform(t, "nackrundlqat", length-1)
 				c.DLQ.PerRecord[Key(si, q, 0)] = OutNack
+				// or the DLQ connector's stream dies at that record, half of the time without an
+				// error (io.EOF): every later dead-letter write of the run fails as well
+				if chance(t, "nackrundlqerr", 45) {
+					c.DLQ.PerRecord[Key(si, q, 0)] = OutErr
+					c.DLQ.ErrEOF = chance(t, "nackrundlqeof", 50)
+				}
 			}
+		}
+	}
+	if o.DLQDeath > 0 && o.Nacks && chance(t, "dlqdeath", o.DLQDeath) {
+		si := Uniform(t, "dlqdeathsrc", nsrc)
+		if ns[si] >= 3 {
+			q := Uniform(t, "dlqdeathat", ns[si]-2)
+			di := Uniform(t, "dlqdeathdest", ndst)
+			c.Dests[di].PerPiece[Key(si, q, 0)] = OutNack
+			if c.DLQ.PerRecord == nil {
+				c.DLQ.PerRecord = map[string]Outcome{}
+			}
+			c.DLQ.PerRecord[Key(si, q, 0)] = OutErr
+			c.DLQ.ErrEOF = chance(t, "dlqdeatheof", 60)
+			nackRunWindow = true // the window tolerates the rejection: the DLQ write is attempted
 		}
 	}
 	if o.StreamErrs && chance(t, "streamerr", 30) {
